@@ -3129,3 +3129,135 @@ P.PROPS["C05"]["streams"].append(o_interleave)
 for _pid in sorted(P.PROPS):
     if o_json_identity not in P.PROPS[_pid]["streams"]:
         P.PROPS[_pid]["streams"].append(o_json_identity)
+
+
+# ---------------------------------------------------------------- round 12
+ABORTING_DOCS = OPEN_DOCSTRING_DOCS + [
+    # an error raised while look-ahead tokens are buffered: the ragged table is closed by a tag line the look-ahead ran over
+    "Feature: f\n  Scenario: s\n    Given t\n      | a |\n      | b | c |\n  @tag\n\n  # c\n  Scenario: x\n    Given y\n",
+    "Feature: f\n  Scenario Outline: o\n    Given <a>\n    Examples:\n      | a |\n      | 1 | 2 |\n    @e\n\n    Examples:\n      | a |\n",
+    # the same as the eleventh error of a collecting run
+    "Feature: f\n  Scenario: s\n    Given g\n" + "".join("    oops %d\n" % i for i in range(10)) + "    Given t\n      | a |\n      | b | c |\n  @tag\n\n  Scenario: x\n    Given y\n",
+    # eleven and more errors; an unexpected end of file after a tag line; a doc string left open in another dialect
+    "Feature: f\n  Scenario: s\n    Given g\n" + "".join("    nope %d\n" % i for i in range(14)),
+    "Feature: f\n  Scenario: s\n    Given g\n  @dangling\n",
+    "# language: fr\nFonctionnalité: f\n  Scénario: s\n    Soit g\n      ```\n      ouvert\n",
+    "# language: no-such\nFeature: f\n"]
+FOLLOWING_DOCS = [
+    "Feature: v\n  Scenario: s\n    Given g\n      \"\"\"\n      body\n      \"\"\"\n    When h\n      ```\n      other\n      ```\n    Then i\n    And j\n    But k\n    * l\n",
+    "Feature: v\n  Scenario: s2\n    Given y\n",
+    "Feature: v\n  Background:\n    Given b\n      | a |\n  Rule: r\n    @t\n    Scenario Outline: o\n      When <a>\n        \"\"\"\n        <a>\n        \"\"\"\n      Examples:\n        | a |\n        | 1 |\n",
+    "# language: de\nFunktionalität: v\n  Szenario: s\n    Angenommen g\n    Wenn h\n    Dann i\n",
+    "# c\n", ""]
+
+
+def abort_histories(pid, proj):
+    """one Parser, one TokenMatcher, one builder through several documents: after a parse that was cut short (a doc string
+    left open, an error raised while look-ahead tokens were buffered, the error cap, an unknown dialect, another dialect's
+    header) the next documents parse as they do alone -- typed results, same acceptance, same AST"""
+    def stream(ctx):
+        reqs = []
+        for dflt in ("en", "fr"):
+            for a in ABORTING_DOCS:
+                for stop in (False, True):
+                    for f in FOLLOWING_DOCS[:4]:
+                        reqs.append(("parse_history", [dflt, [[stop, a], [False, f]]]))
+                    reqs.append(("parse_history", [dflt, [[stop, a], [stop, a], [True, FOLLOWING_DOCS[0]], [False, FOLLOWING_DOCS[3]], [False, FOLLOWING_DOCS[1]]]]))
+        r = rng("aborth/" + pid)
+        for _ in range(S.n_for(100, 1500)):
+            reqs.append(("parse_history", [r.choice(["en", "en", "fr", "de"]), [[r.random() < 0.4, r.choice(ABORTING_DOCS + FOLLOWING_DOCS)] for _ in range(r.randint(2, 5))]]))
+
+        def pj(res, req=None):
+            return [proj(x) for x in res] if isinstance(res, list) else res
+        return differential("after-a-parse-cut-short/" + pid, reqs, proj=pj, nontrivial=lambda q, x: canon(q[1])[:300], classify=lambda q, x: "hist:%d" % len(q[1][1]), exhaustive=False)
+    stream.__name__ = "abort_histories_" + pid
+    stream.__doc__ = abort_histories.__doc__
+    return stream
+
+
+def _typed_outcome(x, req=None):
+    return {"outcome": P.outcome(x), "foreign": x.get("foreign"), "errors": [e.get("type") for e in x.get("errors", [])] + ([x["error"].get("type")] if "error" in x else [])}
+
+
+P.PROPS["C01"]["streams"].append(abort_histories("C01", _typed_outcome))
+P.PROPS["C02"]["streams"].append(abort_histories("C02", lambda x, req=None: outcome(x)))
+P.PROPS["C03"]["streams"].append(abort_histories("C03", P.p_ast_text))
+P.PROPS["C05"]["streams"].append(abort_histories("C05", P.p_whole))
+P.PROPS["C13"]["streams"].append(abort_histories("C13", P.p_docstrings))
+P.PROPS["C15"]["streams"].append(abort_histories("C15", P.p_whole))
+P.PROPS["C18"]["streams"].append(abort_histories("C18", P.p_whole))
+
+
+def o_retained_envelopes(ctx):
+    """an envelope belongs to whoever received it: the envelopes of a stream, kept as objects while the stream goes on to
+    the next sources, still say at the end what they said when they were yielded"""
+    impl = impl_mod()
+    from gherkin.stream.gherkin_events import GherkinEvents
+    pool = ["# c1\nFeature: a\n  # c2\n  Scenario: s\n    Given g\n", "Feature: b\n  @t\n  Scenario Outline: o\n    Given <x>\n    # c3\n    Examples:\n      | x |\n      | 1 |\n",
+            "# c4\nFeature: bad\n  Scenario: s\n    oops\n", "# only\n", "", "Feature: c\n  Background:\n    Given b\n  Rule: r\n    # c5\n    Example: e\n      Given g\n# tail\n"]
+    r = rng("c17kept")
+    seqs = [[pool[0], pool[1]], [pool[0], pool[3], pool[5]], [pool[2], pool[0], pool[2], pool[4]], pool] + [[r.choice(pool) for _ in range(r.randint(2, 6))] for _ in range(S.n_for(20, 300))]
+    items = [(seq, opts) for seq in seqs for opts in ((True, True, True), (False, True, True), (False, True, False), (True, False, True))]
+
+    def check(it):
+        seq, (ps, pa, pp) = it
+        ge = GherkinEvents(GherkinEvents.Options(print_source=ps, print_ast=pa, print_pickles=pp))
+        kept, said = [], []
+        for i, s in enumerate(seq):
+            for env in ge.enum({"source": {"uri": "u%d" % i, "data": s, "mediaType": "text/x.cucumber.gherkin+plain"}}):
+                kept.append(env)
+                said.append(canon(env))
+        for k, (env, was) in enumerate(zip(kept, said)):
+            if canon(env) != was:
+                return {"what": "envelope %d of the stream changed after it was yielded" % k, "was": was[:300], "now": canon(env)[:300]}
+        return None
+    return oracle("retained-envelopes", items, check, describe=lambda it: repr(it[1]) + " " + repr([s[:20] for s in it[0]]))
+
+
+for _pid in ("C17", "C15", "C04"):
+    P.PROPS[_pid]["streams"].append(o_retained_envelopes)
+
+
+def o_c13_docstrings_in_context(ctx):
+    """intended-result oracle: a doc string reads back as written wherever a step can stand (feature / rule background,
+    scenario, outline, inside or outside a rule), whatever its lines look like -- blank and whitespace-only lines,
+    comments, tags, keyword lines, rows, the other delimiter, the escaped delimiter; parsing resumes after the closing line"""
+    impl = impl_mod()
+    r = rng("c13ctx")
+    ctxs = [("Feature: f\n  Background:\n    Given s\n", lambda f: f["children"][0]["background"]["steps"][0]),
+            ("Feature: f\n  Scenario: a\n    Given s\n", lambda f: f["children"][0]["scenario"]["steps"][0]),
+            ("Feature: f\n  Scenario Outline: a\n    Given s\n", lambda f: f["children"][0]["scenario"]["steps"][0]),
+            ("Feature: f\n  Rule: r\n    Background:\n      Given s\n", lambda f: f["children"][0]["rule"]["children"][0]["background"]["steps"][0]),
+            ("Feature: f\n  Rule: r\n    Example: a\n      Given s\n", lambda f: f["children"][0]["rule"]["children"][0]["scenario"]["steps"][0]),
+            ("Feature: f\n  Rule: r\n    Scenario Outline: a\n      Given s\n", lambda f: f["children"][0]["rule"]["children"][0]["scenario"]["steps"][0]),
+            ("Feature: f\n  Background:\n    Given b\n  Rule: r\n    Background:\n      Given s\n", lambda f: f["children"][1]["rule"]["children"][0]["background"]["steps"][0])]
+    lines = ["", "   ", "\t", "plain", "# comment", "@tag", "Feature: x", "Scenario: y", "Given z", "| a | b |", "Examples:", "* star", "  deeper", "trailing  ", "😀 é"]
+    items = []
+    for ci in range(len(ctxs)):
+        for d in ('"""', "```"):
+            for _ in range(S.n_for(12, 150)):
+                o = "```" if d == '"""' else '"""'
+                body = [r.choice(lines + [o, "\\" + d[0] * 3 if d == '"""' else "\\`\\`\\`", o + "x"]) for _ in range(r.randint(0, 7))]
+                items.append((ci, d, r.choice(["", "", "json", "text/x"]), r.randint(0, 8), body))
+
+    def check(it):
+        ci, d, media, ind, body = it
+        pre, step_of = ctxs[ci]
+        pad = " " * ind
+        esc = '\\"\\"\\"' if d == '"""' else "\\`\\`\\`"
+        src = pre + pad + d + media + "\n" + "".join((pad + ln if ln.strip() or ln else ln) + "\n" for ln in body) + pad + d + "\n" + "    And after\n"
+        want = "\n".join(ln.replace(esc, d) for ln in body)
+        res = impl.parse(False, "en", src)
+        if "ok" not in res:
+            return {"what": "a document with a closed doc string is rejected", "source": src, "result": canon(res)[:300]}
+        try:
+            ds = step_of(res["ok"]["feature"]).get("docString")
+        except Exception as e:  # noqa
+            return {"what": "the step that carries the doc string is not where the source has it (%r)" % (e,), "source": src}
+        if not ds or ds.get("content") != want or ds.get("delimiter") != d or ds.get("mediaType") != (media or None):
+            return {"what": "a doc string does not read back as written", "source": src, "want": want, "got": ds}
+        return None
+    return oracle("docstrings-in-context", items, check, describe=lambda it: [it[0], it[1], it[2], it[3], it[4]])
+
+
+P.PROPS["C13"]["streams"].append(o_c13_docstrings_in_context)
